@@ -59,7 +59,9 @@ RULE_ADDED = (
               'gnature. '
               ' '
               'Round 16: chains whose certifying certificates say CA=FALSE or carry no basic co'
-              'nstraints (one chain in eight). ')
+              'nstraints (one chain in eight). '
+              ' '
+              'Round 17: one chain in sixteen is 6..17 certificates deep. ')
 RULE = RULE + " " + RULE_ADDED.strip()
 ASSUMPTIONS = [
     "oracle: pv/oracle/certv2.py; X.509 parsing itself is shared (cryptography), signature "
